@@ -182,18 +182,20 @@ class SimQTable(AbstractQPolicy):
     observation_space: Any
     epsilon: float
     q: Float[Array, "NS A"]
+    qbias: Float[Array, "KB A"]  # constant: Q-values depend on the policy's own state too (which state a network is evaluated with is observable)
 
-    def __init__(self, env, q, epsilon: float = 0.0):
+    def __init__(self, env, q, epsilon: float = 0.0, qbias=None):
         self.action_space = env.action_space
         self.observation_space = env.observation_space
         self.epsilon = epsilon
         self.q = jnp.asarray(q, dtype=float)
+        self.qbias = jnp.zeros((KB, self.q.shape[1])) if qbias is None else jnp.asarray(qbias, dtype=float)
 
     def reset(self, *, key: Key[Array, ""]) -> SimPolicyState:
         return SimPolicyState(jnp.array(0, dtype=int))
 
     def q_values(self, state, observation):
-        return SimPolicyState(state.k + 1), self.q[obs_id(observation)]
+        return SimPolicyState(state.k + 1), self.q[obs_id(observation)] + lax.stop_gradient(self.qbias[jnp.minimum(state.k, KB - 1)])
 
 
 # --------------------------------------------------------------------------- SAC policy
